@@ -195,3 +195,23 @@ Theorem force_skips_controls_only ctl t os name mv ex : do_req ctl t os (TPlace 
 Proof. cbn [do_req]. destruct (tget name os); [|reflexivity]. cbn [negb andb]. rewrite !andb_false_r. reflexivity. Qed.
 Theorem force_skips_controls_only_cancel ctl t os name red : do_req ctl t os (TCancel name red true) = do_req true t os (TCancel name red true).
 Proof. cbn [do_req]. destruct (tget name os); reflexivity. Qed.
+
+(* after the repair of F-C02-1: a control refusing a cancel / update / replace leaves every order that has been placed exactly as it was *)
+Lemma tupd_id name f l : (forall o, In o l -> f o = o) -> tupd name f l = l.
+Proof.
+  induction l as [|o r IH]; intros H; cbn [tupd]; [reflexivity|]. destruct (to_name o =? name); [rewrite (H o) by (left; reflexivity); reflexivity|].
+  rewrite IH; [reflexivity|]. intros x Hx. apply H. right. exact Hx.
+Qed.
+Theorem control_refusal_leaves_placed_orders ctl t os r t' os' : do_req ctl t os r = (t', os', TRefused) ->
+  (match r with TPlace _ _ _ _ => False | _ => True end) -> (forall o, In o os -> to_status o <> SNone) -> t' = t /\ os' = os.
+Proof.
+  intros H Hr Hst.
+  assert (Hid : forall name, tupd name refuse_mark os = os).
+  { intros name. apply tupd_id. intros o Ho. unfold refuse_mark. specialize (Hst o Ho). destruct (to_status o); try reflexivity. congruence. }
+  destruct r as [name mv ex force|name red force|name p force|name price mv force]; [destruct Hr| | |]; cbn [do_req] in H;
+    destruct (tget name os) as [o|]; try discriminate;
+    repeat (match type of H with
+            | context [if ?c then _ else _] => destruct c
+            | context [match to_type ?x with _ => _ end] => destruct (to_type x)
+            end); inversion H; subst; split; try reflexivity; apply Hid.
+Qed.
